@@ -301,7 +301,7 @@ def run(ctx):
     ctx.cov.update({
         'states': stats['states'], 'transitions': stats['transitions'] + nb,
         'traces_validated_against_impl': stats['transitions'],
-        'samples': [[list(o) for o in OPS[:4]], [['handout', 'a'], ['save'], ['handout', 'b'], ['load'], ['handout', 'a']]],
+        'samples': [[list(o) for o in t] for t in sorted(wallet_states.values(), key=len)[-2:]],
         'exhaustive': True, 'depth': depth, 'saves_executed': stats['saves'], 'crash_snapshots_checked': stats['snapshots'] + nbig,
         'big_wallet_snapshots': nbig, 'balance_queries': nb, 'wallet_partitions': len(wallet_states),
         'rule': "BFS over operation sequences (hand-out a/b, restore, save, load, dump+load) on a 3-key wallet to depth %d, "
